@@ -84,6 +84,16 @@ class Program:
             return None
         return calls[0]['call']['static']
 
+    def functype_values(self, fts):
+        """module functions that are converted to the named func type fts somewhere in the module"""
+        out = set()
+        for f in self.funcs.values():
+            for b in f.blocks:
+                for i in b['instrs']:
+                    if i['op'] == 'ChangeType' and i.get('t') == fts and i['x'].get('k') == 'func' and i['x']['n'] in self.funcs:
+                        out.add(i['x']['n'])
+        return sorted(out)
+
     def implementors(self, iface_ts):
         """concrete named types (T or *T) of the module that implement iface_ts"""
         itd = self.under(iface_ts)
